@@ -212,6 +212,15 @@ class DataPath:
     def from_json_like(cls, json_like, *args, **kwargs):
         return cls.from_spec(json_like)
 
+    def to_spec(self):
+        """Generate a specification that can be passed to `from_spec`."""
+        key = "path"
+        if self.DATUM_TYPE.value:
+            key += f".{self.DATUM_TYPE.name.lower()}"
+        if self.MULTI_TYPE.value:
+            key += f".{self.MULTI_TYPE.name.lower()}"
+        return {key: self.to_part_specs()}
+
     def to_json_like(self, *args, **kwargs):
         out = self.to_part_specs()
         if "shared_data" in kwargs:
